@@ -104,6 +104,14 @@ std::string run_sc(const Args& a) {
 		if (t == "char") { char out = 0; const char* end = 0; int tok = Potassco::xconvert(s.c_str(), out, &end, 0); long off = end - s.c_str(); if (!tok) return "fail:" + str(off); return "ok:" + str((int)(unsigned char)out) + ":" + str(off); }
 		if (t == "pair") { std::pair<int, unsigned> out(0, 0); const char* end = 0; int tok = Potassco::xconvert(s.c_str(), out, &end, 0); return "tok" + str(tok) + ":" + str(out.first) + "," + str(out.second) + ":" + str(end - s.c_str()); }
 		if (t == "vec")  { std::vector<int> out; const char* end = 0; int tok = Potassco::xconvert(s.c_str(), out, &end, 0); std::string r = "tok" + str(tok) + ":"; for (std::size_t i = 0; i < out.size(); ++i) r += (i ? "," : "") + str(out[i]); return r + ":" + str(end - s.c_str()); }
+		if (t == "pvec") {   // a pair whose second member is a list: the list is written into a string that already has content
+			std::pair<unsigned, std::vector<unsigned> > out; out.first = 0; const char* end = 0;
+			int tok = Potassco::xconvert(s.c_str(), out.first, &end, 0);
+			if (tok && *end == ',') { tok += Potassco::xconvert(end + 1, out.second, &end, 0) ? 1 : 0; }
+			std::string r = "tok" + str(tok) + ":" + str(out.first) + ";";
+			for (std::size_t i = 0; i < out.second.size(); ++i) r += (i ? "," : "") + str(out.second[i]);
+			return r + ":" + str(end - s.c_str());
+		}
 		if (t == "cast32") { int out = 0; return Potassco::string_cast(s, out) ? "ok:" + str(out) : std::string("fail"); }
 		if (t == "castu64") { unsigned long long out = 0; return Potassco::string_cast(s, out) ? "ok:" + str(out) : std::string("fail"); }
 		return "bad-op";
@@ -118,6 +126,11 @@ std::string run_sc(const Args& a) {
 		if (t == "bool") return writeT<bool>(a[2] == "1");
 		if (t == "char") return writeT<char>((char)std::atoi(a[2].c_str()));
 		if (t == "pair") { std::vector<std::string> p = split(a[2], ','); return writeT(std::make_pair((int)std::atoll(p[0].c_str()), (unsigned)std::strtoull(p[1].c_str(), 0, 10))); }
+		if (t == "pvec") {
+			std::vector<std::string> h = split(a[2], ';'); std::vector<unsigned> v;
+			if (h.size() > 1 && h[1] != "-") { std::vector<std::string> p = split(h[1], ','); for (std::size_t i = 0; i < p.size(); ++i) v.push_back((unsigned)std::strtoull(p[i].c_str(), 0, 10)); }
+			return hex(Potassco::toString((unsigned)std::strtoull(h[0].c_str(), 0, 10), v));     // toString(x, list): the list is appended to a string that already has content
+		}
 		if (t == "vec")  { std::vector<int> v; if (a[2] != "-") { std::vector<std::string> p = split(a[2], ','); for (std::size_t i = 0; i < p.size(); ++i) v.push_back((int)std::atoll(p[i].c_str())); } return writeT(v); }
 		return "bad-op";
 	}
